@@ -133,11 +133,11 @@ Definition giter (m : gmap) : list (K * V) := flat_map (live K V) (cur m).
 
 Definition gstep (m : gmap) (o : sop K V) : gmap * sres V :=
   match o with
-  | SSet k v => (gset 4 m k v, RUnit V)
-  | SGet k => (m, RGet V (glookup m k))
-  | SDel k => (gdel m k, RUnit V)
-  | SClear => (gclear m, RUnit V)
-  | SLen => (m, RLen V (gcnt m))
+  | SSet _ _ k v => (gset 4 m k v, RUnit V)
+  | SGet _ _ k => (m, RGet V (glookup m k))
+  | SDel _ _ k => (gdel m k, RUnit V)
+  | SClear _ _ => (gclear m, RUnit V)
+  | SLen _ _ => (m, RLen V (gcnt m))
   end.
 
 Fixpoint grun (m : gmap) (ops : list (sop K V)) : list (sres V) :=
